@@ -33,7 +33,9 @@ QUICK = {
     "c07_step_nf_s3", "c07_step_nf_s6", "c07_step_skip_r5_s7", "c07_step_prune",
     "c07_fin_s4_p3", "c07_fin_s3_p2_two_windows", "c07_prune_r4_late3", "c07_prune_r5_then67",
     "c07_wait_before_w4", "c07_wait_after_w4", "c07_commute_s2_s3",
+    "c07_step_skip_s4",   # promoted in session 4: catches seeded C07-m2 (198 s alone, hence the longer quick cap below)
 }
+QUICK_SLOW = {"c07_step_skip_s4"}
 
 FAMILIES = {
     "hist": ("bounded history from the fresh tracker", T_FUNCS + S_FUNCS, 2,
@@ -61,7 +63,7 @@ def _harnesses():
             covers = len([x for x in tags.group(1).split(",") if x.strip()])
         heavy = fam == "stepm"
         out.append({"name": name, "path": MOD, "tiers": ["quick", "thorough"] if name in QUICK else ["thorough"], "role": role, "functions": funcs,
-                    "bounds": bounds, "covers": covers, "timeout": {"quick": 600, "thorough": 1500} if heavy else {"quick": 400, "thorough": 1200},
+                    "bounds": bounds, "covers": covers, "timeout": {"quick": 600, "thorough": 1500} if heavy else {"quick": 1200 if name in QUICK_SLOW else 400, "thorough": 1200},
                     "mem_gb": 10 if heavy else 8, "cbmc_args": CBMC})
     out.append({"name": "c07_step_prune", "path": MOD, "tiers": ["quick", "thorough"], "role": "inductive step from F(G)", "functions": ["ParentReadyTracker::prune", "ParentReadyTracker::parents_ready"] + S_FUNCS,
                 "bounds": "tracker state F(G) for a symbolic ghost over slots 1..8 (at most 4 certified blocks besides genesis) with symbolic root, then prune(new_root) for a symbolic finalized new_root >= root",
